@@ -294,7 +294,7 @@ def proof_status(family, propfile, timeout=1500):
     missing = [t for t in thms if t not in printed]
     if missing:
         st['broken'].append('no Print Assumptions for: ' + ', '.join(missing))
-    tmpdir = os.path.join(COQ, family, 'Cases', 'prop_%d' % os.getpid())
+    tmpdir = os.path.join(COQ, family, 'Cases', 'prop_%d_%s' % (os.getpid(), os.path.splitext(propfile)[0]))
     os.makedirs(tmpdir, exist_ok=True)
     tmpvo = os.path.join(tmpdir, os.path.basename(propfile) + 'o')
     p = subprocess.run(['coqc'] + coq_flags(family) + ['-o', tmpvo, path], capture_output=True, text=True,
